@@ -58,7 +58,11 @@ func (g *sgen) trafficProg() string {
 		case 4:
 			hops = append(hops, fmt.Sprintf("discard:%d", k))
 		case 5:
-			hops = append(hops, "inbuf", "outbuf")
+			if g.r.Intn(3) == 0 { // the user takes a duplicate of the descriptor and keeps it beyond the connection's life
+				hops = append(hops, "dup")
+			} else {
+				hops = append(hops, "inbuf", "outbuf")
+			}
 		case 6, 7:
 			hops = append(hops, "write:"+g.payload(g.size()))
 		case 8:
